@@ -319,6 +319,27 @@ def _per_run(sc, v, tier, seed, which):
     v.add_tlc(results)
     v.traces = len(results)
     v.evaluations = len(lines)
+    # second pass (C04, second sentence): where the library's encoding is not the reference encoder's, the reference bytes are decoded
+    import re
+    spec = {}
+    for r in results:
+        for pl in r.prints:
+            m = re.match(r'^"?SPECBYTES (\d+) <<([0-9, ]*)>>"?$', pl.strip())
+            if m:
+                spec[m.group(1)] = [int(x) for x in m.group(2).split(",") if x.strip()]
+    v.extra["reference_encodings_fed_to_the_decoder"] = len(spec)
+    if spec:
+        sp = os.path.join(sc.work, "specbytes.json")
+        json.dump(spec, open(sp, "w"))
+        trace2 = os.path.join(sc.work, "per2.ndjson")
+        sc.run("rec-per", ["-seed", seed, "-tier", tier, "-out", trace2, "-specbytes", sp], timeout=1800)
+        if os.path.getsize(trace2) > 0:
+            res2, rej2, lines2 = vlib.validate_trace(sc, "TracePer", trace2, timeout=2400)
+            v.add_tlc(res2)
+            v.evaluations += len(lines2)
+            rejects = rejects + rej2
+            if len(lines2) != len(spec):
+                raise HarnessError("second pass: %d reference encodings requested, %d decoded (generation not deterministic?)" % (len(spec), len(lines2)))
     names = set()
     for l in lines:
         e = json.loads(l)
